@@ -323,7 +323,14 @@ def arr_setitem(I, st, base: Ref, sl, val, node=None):
     st.heap[base.rid] = Arr(a.shape, elem, kind=a.kind, etype=a.etype)
 
 
+def _ite_arr(c, a: Arr, b: Arr):
+    shape = tuple(zite(c, x, y) for x, y in zip(a.shape, b.shape))
+    return Arr(shape, lambda *idx: _ite_val(c, a.elem(*idx), b.elem(*idx)), kind=a.kind, etype=a.etype)
+
+
 def _ite_val(c, a, b):
+    if isinstance(a, Arr) and isinstance(b, Arr) and a.ndim == b.ndim:
+        return _ite_arr(c, a, b)
     if (is_num(a) or is_boolish(a)) and (is_num(b) or is_boolish(b)):
         return zite(c, a, b)
     if isinstance(a, VStr) and isinstance(b, VStr):
@@ -769,6 +776,7 @@ BUILTIN_FUNCS = {
     "__rng_real": lambda I, st, a, k, n: _RNG_REAL(_z(a[0]), _z(a[1])),
     "default_rng": b_default_rng,
     "ri": spec_ri,
+    "arange_len": lambda I, st, a, k, n: arange_len(st, a[0], a[1], a[2]),
     "l1d": spec_l1d,
     "upow": lambda I, st, a, k, n: upow(a[0], a[1], st),
     "frac": lambda I, st, a, k, n: to_real(a[0]) - z3.ToReal(z3.ToInt(to_real(a[0]))),
@@ -805,6 +813,29 @@ def np_argmax(I, st, args, kw, node, is_max=True):
     return r
 
 
+_ARANGE_LEN = z3.Function("arange_len", z3.RealSort(), z3.RealSort(), z3.RealSort(), z3.IntSort())
+
+
+def arange_len(st, a, b, p):
+    """Length of np.arange(a, b, p) in REAL arithmetic: the number of k >= 0 with a + k*p < b (p > 0)."""
+    a, b, p = to_real(a), to_real(b), to_real(p)
+    n = _ARANGE_LEN(a, b, p)
+    st.fact(n >= 0)
+    st.fact(z3.Implies(z3.And(p > 0, b <= a), n == 0))
+    st.fact(z3.Implies(z3.And(p > 0, b > a), z3.And(n >= 1, a + z3.ToReal(n - 1) * p < b, a + z3.ToReal(n) * p >= b)))
+    st.fact(z3.Implies(z3.And(p < 0, b >= a), n == 0))
+    return n
+
+
+def np_arange_real(I, st, args, kw, node):
+    used("np.arange(start, stop, step) over reals: element k is start + k*step, length = number of k with start + "
+         "k*step < stop (mathematical; NumPy's float length computation ceil((stop-start)/step) is NOT modelled)")
+    a, b, p = args[0], args[1], (args[2] if len(args) > 2 else kw["step"])
+    I.safety(st, to_real(p) != 0, "arange-step-nonzero", node)
+    n = arange_len(st, a, b, p)
+    return st.alloc(Arr((n,), lambda k: to_real(a) + to_real(k) * to_real(p), kind="ndarray", etype="real"), "arr")
+
+
 def np_arange(I, st, args, kw, node):
     used("np.arange(n) / np.arange(a, b): consecutive integers")
     if len(args) == 1:
@@ -812,7 +843,7 @@ def np_arange(I, st, args, kw, node):
     elif len(args) == 2:
         lo, hi = args
     else:
-        raise Unsupported("np.arange with step")
+        return np_arange_real(I, st, args, kw, node)
     x, y = num_pair(lo, hi)
     if z3.is_real(x):
         raise Unsupported("np.arange over reals")
@@ -865,6 +896,13 @@ def np_where1(I, st, args, kw, node):
 def np_copy(I, st, args, kw, node):
     used("np.copy / np.array(x): fresh array with equal contents")
     a = I.arr_of(args[0], st)
+    if a.ndim == 1:
+        first = a.elem(0) if I.concrete_int(a.shape[0]) != 0 else None
+        fa = _arr(I, st, first) if first is not None and not is_num(first) and not is_boolish(first) else None
+        if fa is not None and fa.ndim == 1:
+            # a sequence of equally long sequences becomes a 2-d array (ragged input is outside the subset)
+            return st.alloc(Arr((a.shape[0], fa.shape[0]), lambda r, c: I.arr_of(a.elem(r), st).elem(c),
+                                kind="ndarray", etype=fa.etype), "arr")
     return st.alloc(Arr(a.shape, a.elem, kind="ndarray", etype=a.etype), "arr")
 
 
@@ -1248,6 +1286,8 @@ def m_append(I, st, recv, args, kw, node):
     item = args[0]
     cn = I.concrete_int(n)
     old = a.elem
+    if isinstance(item, Ref) and item.what == "arr":
+        item = st.heap[item.rid]     # snapshot (arrays stored into a list are assumed not to be mutated afterwards)
     if a.etype == "any":
         a = Arr(a.shape, a.elem, kind=a.kind, etype=etype_of(item))
     if cn is not None:
